@@ -139,7 +139,7 @@ def apply_fault(case, world, vi, pos):
         cfgname = [".rustfmt.toml", "rustfmt.toml"][sub % 2]
         d = os.path.dirname(pos)
         p = os.path.join(d, cfgname)
-        which = (sub // 2) % 5
+        which = (sub // 2) % 6
         if which == 0:
             files[p] = "max_width = \n"
         elif which == 1:
@@ -148,9 +148,13 @@ def apply_fault(case, world, vi, pos):
             files[p] = 'required_version = "0.0.1"\n'
         elif which == 3:
             files[p] = "this is not toml at all [[[\n"
-        else:
+        elif which == 4:
             files[p] = "max_width = 90\n"
             plan = ["* open 1 %s errno 13" % os.path.normpath(p)]
+        else:
+            # the candidate cannot even be examined (EACCES / EIO / ELOOP from stat)
+            files[p] = "max_width = 90\n"
+            plan = ["* stat 1 %s errno %d" % (os.path.normpath(p), [13, 5, 40][sub % 3])]
     elif kind == "configpath":
         if not is_root:
             return None
@@ -322,7 +326,7 @@ def _kindclass(kind, pos, case):
     where = "root" if t and t[0]["root"] == pos else "module"
     k = kind
     if kind == "badconfig":
-        k = "badconfig-%d" % ((case["sub"] // 2) % 5)
+        k = "badconfig-%d" % ((case["sub"] // 2) % 6)
     if kind == "panic":
         k = "panic-" + PANIC_SITES[case["sub"] % len(PANIC_SITES)]
     if kind == "open-errno":
